@@ -159,6 +159,7 @@ class SteadyDetonationReactionZone(ExactSolver):
         tsolution = self.run_tvec(tvec)
 
         xsolution = dict()
+        xsolution['position'] = xvec
 
         varnames = ['pressure','velocity','density','sound_speed',
                         'reaction_progress','position_relative']
@@ -208,8 +209,6 @@ class SteadyDetonationReactionZone(ExactSolver):
         #
         # assign xvec into the solution object
         #
-
-        xsolution['position'] = xvec
 
         return ExactSolution(xsolution.values(),
                              names=list(xsolution.keys()))
